@@ -85,6 +85,9 @@ struct Item {
     /// number of this item's lines that were painted in the last painted frame of the MultiProgress
     /// when that frame was cut at the terminal height (None = all of them)
     painted: Option<usize>,
+    /// reaped (made static) while bottom alignment was on and the last painted frame had padding
+    /// rows: the situation of the open finding D22
+    d22: bool,
 }
 
 #[derive(Clone)]
@@ -137,7 +140,7 @@ pub struct Oracle {
     /// the cursor is wrap-pending at the right edge (left there by a draw whose last painted line was
     /// a text line: nothing to erase) - the line only resolves the pending wrap.  `vt_swallow` gets
     /// the row the property demands (one more write_line("")); `vt_both` gets this and the D14 repairs.
-    /// 'bottom-empty-frame-at-full-height-scrolls' (finding candidate D26, C19): under bottom
+    /// 'bottom-empty-frame-at-full-height-scrolls' (D26, C19, fixed by 881c313): under bottom
     /// alignment an EMPTY frame painted while last_line_count = H pads H rows with write_line: the
     /// last one scrolls the terminal, one blank row goes into the scroll-back (every time).  Seen as:
     /// a draw that clears H rows and then writes exactly H empty lines and nothing else.  A failure
@@ -151,7 +154,14 @@ pub struct Oracle {
     /// D22 ('bottom-alignment-kept-rows-misplaced', property C04 only): under bottom alignment with
     /// padding rows the rows kept for a reaped finished bar are the padding rows, the bar's own rows
     /// are erased by the next draw; the repaired expectation = kept rows may be missing (blank).
-    d22_padded: bool,
+    /// bottom alignment is selected now / the LAST painted frame of the MultiProgress had padding rows
+    bottom_now: bool,
+    /// the alignment the draw target really uses: set_alignment takes effect at the next ordinary
+    /// draw of the MultiProgress (clear() and the clear of suspend still use the previous one)
+    bottom_eff: bool,
+    last_frame_padded: bool,
+    /// alternative evaluation for D22: only the rows of bars reaped in the D22 situation are relaxed
+    relax_d22: bool,
     /// false (set by the C02/C03 checks): the rows of visibly finished, dropped bars "may instead
     /// remain" - their absence is not a failure of those properties
     pub kept_rows_checked: bool,
@@ -165,7 +175,11 @@ pub struct Oracle {
     /// scrolled out of the visible screen when a println/clear/suspend went to erase them
     transcript: Vec<String>,
     /// which transcript rows are rows of finished, dropped bars (frozen when they went out of reach)
-    transcript_kept: Vec<bool>,
+    transcript_kept: Vec<u8>, // 0 = log row, 1 = kept row, 2 = kept row of a bar reaped in the D22 situation
+    /// BLANK rows may precede this static row: it is the first row a suspend closure wrote under bottom
+    /// alignment (fix 96a75c4 leaves the padding of the cleared region above the closure's output)
+    transcript_gap: Vec<bool>,
+    gap_pending: bool,
     /// rows scrolled off the top of the terminal so far (derived from the expected extents)
     top: usize,
     pub frozen_rows: usize,
@@ -222,13 +236,18 @@ impl Oracle {
             both_swallow_injected: false,
             vt_both: Vt::new(case.w, case.h),
             last_injected: "",
-            d22_padded: false,
+            bottom_now: false,
+            bottom_eff: false,
+            last_frame_padded: false,
+            relax_d22: false,
             kept_rows_checked: true,
             kept_out_of_reach: false,
             oversized_reap: false,
             last_lines: vec![vec![]; nb],
             transcript: vec![],
             transcript_kept: vec![],
+            transcript_gap: vec![],
+            gap_pending: false,
             top: 0,
             frozen_rows: 0,
             pending_drop: None,
@@ -243,6 +262,7 @@ impl Oracle {
                     cands: vec![vec![]],
                     optional: false,
                     painted: None,
+                    d22: false,
                 });
             }
         }
@@ -261,6 +281,8 @@ impl Oracle {
             self.transcript.retain(|_| *it.next().unwrap());
             let mut it = keep.iter();
             self.transcript_kept.retain(|_| *it.next().unwrap());
+            let mut it = keep.iter();
+            self.transcript_gap.retain(|_| *it.next().unwrap());
         }
         for it in self.display.iter_mut() {
             for c in it.cands.iter_mut() {
@@ -353,16 +375,39 @@ impl Oracle {
         }
         // kept rows that have scrolled off the visible screen cannot be erased any more: they stay
         // where they are, above whatever is printed next
-        let kept_rows: Vec<String> = self
+        let kept_rows: Vec<(String, u8)> = self
             .display
             .iter()
             .filter(|i| i.state == ItemState::Kept)
-            .flat_map(|i| i.cands.last().cloned().unwrap_or_default())
+            .flat_map(|i| {
+                let f = if i.d22 { 2u8 } else { 1u8 };
+                i.cands.last().cloned().unwrap_or_default().into_iter().map(move |r| (r, f))
+            })
             .collect();
-        let out = self.top.saturating_sub(self.transcript.len()).min(kept_rows.len());
+        let out = if self.bottom_ever {
+            // under bottom alignment blank padding rows sit between the static rows: locate the kept
+            // rows on the reference terminal (they end `live` rows above the last row of the region)
+            let (r, c) = self.vt.cursor();
+            let last = if c == 0 && r > 0 { r - 1 } else { r };
+            let live: usize = self
+                .display
+                .iter()
+                .filter(|i| i.state != ItemState::Kept)
+                .map(|i| match i.painted {
+                    // a frame cut at the height: only the painted lines of the item are on the screen
+                    Some(k) => self.last_lines[i.bar].iter().take(k).map(|l| wrap_rows(l, self.w).len()).sum(),
+                    None => i.cands.last().map_or(0, |c| c.len()),
+                })
+                .sum();
+            let first_kept = (last + 1).saturating_sub(live + kept_rows.len());
+            self.vt.top.saturating_sub(first_kept).min(kept_rows.len())
+        } else {
+            self.top.saturating_sub(self.transcript.len()).min(kept_rows.len())
+        };
         self.frozen_rows += out;
-        self.transcript.extend(kept_rows[..out].iter().cloned());
-        self.transcript_kept.extend(std::iter::repeat(true).take(out));
+        self.transcript.extend(kept_rows[..out].iter().map(|x| x.0.clone()));
+        self.transcript_kept.extend(kept_rows[..out].iter().map(|x| x.1));
+        self.transcript_gap.extend(std::iter::repeat(false).take(out));
         self.display.retain(|i| i.state != ItemState::Kept);
         let p2 = ORACLE_P2;
         let (w, h) = (self.w, self.h);
@@ -388,12 +433,39 @@ impl Oracle {
     }
 
     fn push_log(&mut self, lines: Vec<String>) {
+        self.push_log_gap(lines, false)
+    }
+
+    /// a suspend of the MultiProgress under bottom alignment: the padding of the cleared region stays
+    /// on the screen (fix 96a75c4), above whatever static row is written next
+    fn suspend_gap(&mut self) {
+        if self.bottom_eff {
+            self.gap_pending = true;
+        }
+    }
+
+    /// `closure`: the lines are written by the closure of a suspend of the MultiProgress
+    fn push_log_gap(&mut self, lines: Vec<String>, closure: bool) {
         {
             let rs = rows_of(&lines, self.w);
-            self.transcript_kept.extend(std::iter::repeat(false).take(rs.len()));
+            self.transcript_kept.extend(std::iter::repeat(0u8).take(rs.len()));
+            let _ = closure;
+            for k in 0..rs.len() {
+                // blank rows may precede the first NON-BLANK row of this push (its leading blank rows
+                // cannot be told apart from the padding)
+                let g = self.gap_pending && rs[..k].iter().all(|r| r.is_empty());
+                self.transcript_gap.push(g);
+            }
+            if rs.iter().any(|r| !r.is_empty()) {
+                self.gap_pending = false;
+            }
             self.transcript.extend(rs);
         }
         self.log.extend(lines);
+    }
+
+    fn kept_relaxed(&self, d22: bool) -> bool {
+        !self.kept_rows_checked || (self.relax_d22 && d22)
     }
 
     /// a painted draw of the MultiProgress reaps the zombies at the head of its list; what stays on
@@ -404,6 +476,7 @@ impl Oracle {
         // VERIF_ORACLE_P2=1: the implementation keeps a dropped bar that is behind the cut of a frame
         // taller than the terminal in its list (candidate patch P2); otherwise reaping it is reported
         let p2 = ORACLE_P2;
+        let d22_now = self.bottom_now && self.last_frame_padded;
         let mut head = true;
         // rows of this frame painted in front of the item
         let mut before = 0usize;
@@ -435,6 +508,7 @@ impl Oracle {
                         it.cands = vec![cut.clone()];
                     }
                     it.state = ItemState::Kept;
+                    it.d22 = d22_now;
                     reaped += 1;
                     before += full.len();
                 }
@@ -470,6 +544,7 @@ impl Oracle {
             self.clear_then_drop = true;
         }
         let w = self.w;
+        let d22_now = was_member && self.bottom_now && self.last_frame_padded;
         let wiped_now = self.wiped;
         let lines = self.last_lines[b].clone();
         let mut released = false;
@@ -478,6 +553,7 @@ impl Oracle {
             released = kept && was_member;
             it.state = if kept { ItemState::Kept } else { ItemState::Zombie };
             if kept {
+                it.d22 = d22_now;
                 if let Some(k) = it.painted {
                     let k = k.min(lines.len());
                     it.cands = vec![lines[..k].iter().flat_map(|l| wrap_rows(l, w)).collect()];
@@ -663,11 +739,13 @@ impl Oracle {
                 }
             }
             Op::Suspend(b, ws) => {
-                if self.place[*b] == Place::Member && self.mp_visible {
+                let multi = self.place[*b] == Place::Member && self.mp_visible;
+                if multi {
                     self.intervene(false);
                     mp_level_paint = true;
+                    self.suspend_gap();
                 }
-                self.push_log(ws.clone());
+                self.push_log_gap(ws.clone(), multi);
                 if !ws.is_empty() {
                     // every line the closure writes ends with a line feed
                     self.top = self.top.max((self.transcript.len() + 1).saturating_sub(self.h));
@@ -682,7 +760,10 @@ impl Oracle {
                     mp_level_paint = true;
                     must_paint = Some("mp.suspend");
                 }
-                self.push_log(ws.clone());
+                if self.mp_visible {
+                    self.suspend_gap();
+                }
+                self.push_log_gap(ws.clone(), self.mp_visible);
                 if !ws.is_empty() {
                     self.top = self.top.max((self.transcript.len() + 1).saturating_sub(self.h));
                 }
@@ -694,6 +775,7 @@ impl Oracle {
                 }
             }
             Op::SetAlign(b) => {
+                self.bottom_now = *b;
                 if *b {
                     self.bottom_ever = true
                 }
@@ -778,6 +860,7 @@ impl Oracle {
                         cands: vec![vec![]], // not drawn yet: shows nothing
                         optional: false,
                         painted: None,
+                    d22: false,
                     },
                 );
                 self.place[*b] = Place::Member;
@@ -886,13 +969,16 @@ impl Oracle {
                 return self.step_frames_p3(op, o, must_paint, painted);
             }
         }
-        if self.bottom_ever
-            && painted
-            && o.emitted.iter().enumerate().any(|(i, x)| {
-                matches!(x, TOp::Line(l) if l.is_empty()) && (i == 0 || !matches!(o.emitted[i - 1], TOp::Str(_)))
-            })
-        {
-            self.d22_padded = true;
+        if painted && !matches!(op, Op::MClear) {
+            self.bottom_eff = self.bottom_now;
+        }
+        if painted {
+            // padding rows: an empty write_line that does not follow a write_str (last draw of the op)
+            let last = o.emitted.split(|x| *x == TOp::Flush).filter(|seg| !seg.is_empty()).last().unwrap_or(&[]);
+            self.last_frame_padded = self.bottom_eff
+                && last.iter().enumerate().any(|(i, x)| {
+                    matches!(x, TOp::Line(l) if l.is_empty()) && (i == 0 || !matches!(last[i - 1], TOp::Str(_)))
+                });
         }
         let top_before = self.vt.top;
         let vt = &mut self.vt;
@@ -900,26 +986,35 @@ impl Oracle {
             self.vt_broken = true;
             return None;
         }
-        // C19 "the top of the managed region never scrolls out of reach": a call that paints nothing
-        // (only clear_line / empty write_line padding) must not scroll the terminal
-        let writes_text = o.emitted.iter().any(|x| matches!(x, TOp::Str(t) | TOp::Line(t) if !t.is_empty()))
-            || matches!(op, Op::Suspend(..) | Op::MSuspend(_) | Op::Println(..) | Op::MPrintln(_));
-        // (a scroll while the region is lower than the screen only moves the log up, like a println; when
-        // the erased region was as tall as the screen its top row leaves the screen: out of reach)
-        let full = o
+        // C19 "the top of the managed region never scrolls out of reach": a call that adds no log text
+        // and erases a region at least as tall as the screen must not scroll the terminal (a scroll
+        // while the region is lower than the screen only moves the log up, like a println would; when
+        // the erased region is as tall as the screen its top row leaves the screen: out of reach)
+        let log_op = matches!(op, Op::Suspend(..) | Op::MSuspend(_) | Op::Println(..) | Op::MPrintln(_));
+        let max_clears = o
             .emitted
             .split(|x| *x == TOp::Flush)
-            .any(|seg| seg.iter().filter(|x| **x == TOp::Clear).count() == self.h);
-        if !writes_text && self.vt.top > top_before && full {
+            .map(|seg| seg.iter().filter(|x| **x == TOp::Clear).count())
+            .max()
+            .unwrap_or(0);
+        if !log_op && self.vt.top > top_before && max_clears >= self.h {
+            let writes_text = o.emitted.iter().any(|x| matches!(x, TOp::Str(t) | TOp::Line(t) if !t.is_empty()));
             return Some(Violation {
-                class: if self.bottom_ever && full {
-                    "bottom-empty-frame-at-full-height-scrolls".into() // finding candidate D26
+                class: if !self.bottom_ever {
+                    "region-as-tall-as-terminal-scrolls".into()
+                } else if max_clears > self.h {
+                    // last_line_count exceeded the height (LineAdjust::Clear of kept rows above a live frame)
+                    "bottom-region-taller-than-terminal-scrolls".into()
+                } else if !writes_text {
+                    "bottom-empty-frame-at-full-height-scrolls".into() // D26, fixed by 881c313
                 } else {
-                    "empty-frame-scrolls-terminal".into()
+                    "bottom-region-as-tall-as-terminal-scrolls".into()
                 },
                 detail: format!(
-                    "{:?} painted no text, yet the terminal scrolled by {} row(s): calls {:?}",
+                    "{:?} adds no log text and erased {} rows (terminal height {}), yet the terminal scrolled by {} row(s): calls {:?}",
                     op,
+                    max_clears,
+                    self.h,
                     self.vt.top - top_before,
                     o.emitted
                 ),
@@ -1081,7 +1176,9 @@ impl Oracle {
             }
         }
         let after_clear = matches!(op, Op::MClear);
-        let d22_possible = self.kept_rows_checked && self.bottom_ever && self.d22_padded;
+        // D22 can explain a mismatch only if a bar reaped in the D22 situation has static rows now
+        let d22_possible = self.kept_rows_checked
+            && (self.display.iter().any(|i| i.state == ItemState::Kept && i.d22) || self.transcript_kept.contains(&2));
         let snapshot = if self.cut_injected || self.swallow_injected || self.both_swallow_injected || d22_possible || self.bottom_full_height_empty {
             Some(self.clone())
         } else {
@@ -1117,12 +1214,12 @@ impl Oracle {
                 let mut alt = snap.clone();
                 alt.drop_blank_rows();
                 if alt.check_screen(op, after_clear).is_none() {
-                    explained = Some("bottom-empty-frame-at-full-height-scrolls"); // finding candidate D26
+                    explained = Some("bottom-empty-frame-at-full-height-scrolls"); // D26 (fixed by 881c313): a violation if it reappears
                 }
             }
             if explained.is_none() && d22_possible {
                 let mut alt = snap.clone();
-                alt.kept_rows_checked = false;
+                alt.relax_d22 = true;
                 if alt.check_screen(op, after_clear).is_none() {
                     explained = Some("bottom-alignment-kept-rows-misplaced"); // open finding D22 (C04)
                 }
@@ -1138,19 +1235,9 @@ impl Oracle {
         res
     }
 
-    /// the narrow, history-determined classes of the recorded open findings; `default` otherwise
+    /// failures that no open finding explains keep the class of the check that failed
     fn classify(&self, default: &'static str) -> &'static str {
-        if self.clear_then_drop {
-            "finished-bar-dropped-after-clear"
-        } else if self.oversized_reap {
-            "finished-bar-dropped-while-frame-taller-than-terminal"
-        } else if self.kept_out_of_reach {
-            "kept-rows-out-of-reach"
-        } else if self.empty_region_intervention {
-            "kept-rows-survive-println-on-empty-region"
-        } else {
-            default
-        }
+        default
     }
 
     fn check_screen(&mut self, op: &Op, after_clear: bool) -> Option<Violation> {
@@ -1193,15 +1280,18 @@ impl Oracle {
             trimmed_log.pop();
         }
         let prefix_ok = got.len() >= trimmed_log.len() && (0..trimmed_log.len()).all(|i| row_eq(&got[i], &log_rows[i]));
-        if !prefix_ok && (self.bottom_ever || !self.kept_rows_checked) {
+        let relaxed_any = !self.kept_rows_checked || self.relax_d22;
+        if !prefix_ok && (self.bottom_ever || relaxed_any) {
             // bottom alignment: a suspend (fix 96a75c4) leaves the blank padding rows of the cleared
-            // region above what the closure prints: BLANK rows may sit between the static rows -
-            // nothing else may (a duplicated or displaced line is a failure)
+            // region above what the closure prints: BLANK rows may sit directly above the first row a
+            // closure wrote - nowhere else between static rows, and nothing but blank rows
             let (mut i, mut j) = (0usize, 0usize);
             let mut ok = true;
             while j < trimmed_log.len() {
+                let kept_j = self.transcript_kept.get(j).copied().unwrap_or(0);
+                let relax_j = kept_j > 0 && self.kept_relaxed(kept_j == 2);
                 if i >= got.len() {
-                    if !self.kept_rows_checked && self.transcript_kept.get(j).copied().unwrap_or(false) {
+                    if relax_j {
                         j += 1;
                         continue;
                     }
@@ -1211,10 +1301,10 @@ impl Oracle {
                 if row_eq(&got[i], &log_rows[j]) {
                     i += 1;
                     j += 1;
-                } else if !self.kept_rows_checked && self.transcript_kept.get(j).copied().unwrap_or(false) {
+                } else if relax_j {
                     j += 1; // a row of a finished, dropped bar: may be missing when kept rows are not checked
-                } else if self.bottom_ever && got[i].is_empty() {
-                    i += 1;
+                } else if got[i].is_empty() && (self.transcript_gap.get(j).copied().unwrap_or(false) || self.relax_d22) {
+                    i += 1; // padding left above the output of a suspend closure (bottom alignment)
                 } else {
                     ok = false;
                     break;
@@ -1249,6 +1339,8 @@ impl Oracle {
     }
 
     fn check_region(&mut self, op: &Op, after_clear: bool, region: Vec<String>, n: usize) -> Option<Violation> {
+        let relaxed_any_region = !self.kept_rows_checked || self.relax_d22;
+        let (kc, rd) = (self.kept_rows_checked, self.relax_d22);
         // frames taller than the terminal are outside the screen equation (C19 checks them separately)
         let live_rows: usize = self
             .display
@@ -1279,7 +1371,12 @@ impl Oracle {
                 if it.state == ItemState::Kept {
                     // static text: not limited by the height
                     let kr = it.cands.last().cloned().unwrap_or_default();
-                    want_blank.extend(kr.iter().map(|_| String::new()));
+                    if !kc || (rd && it.d22) {
+                        want_blank.extend(kr.iter().map(|_| String::new()));
+                    } else {
+                        want_blank.extend(kr.iter().cloned());
+                        want_nokept.extend(kr.iter().cloned());
+                    }
                     want.extend(kr);
                     continue;
                 }
@@ -1322,7 +1419,7 @@ impl Oracle {
                 }
                 g.len() == w2.len() && g.iter().zip(w2.iter()).all(|(a, b)| row_eq(a, b))
             };
-            let ok = same(&g, &w2) || (!self.kept_rows_checked && (same(&g, &want_nokept) || same(&g, &want_blank)));
+            let ok = same(&g, &w2) || (relaxed_any_region && (same(&g, &want_nokept) || same(&g, &want_blank)));
             // windows are not tracked for oversized frames: accept any admissible older state only
             // through the exact check above (these runs use gaps that keep every draw current)
             return if ok {
@@ -1342,9 +1439,9 @@ impl Oracle {
         } else {
             self.display.clone()
         };
-        if !self.kept_rows_checked {
+        if relaxed_any_region {
             for it in items.iter_mut() {
-                if it.state == ItemState::Kept {
+                if it.state == ItemState::Kept && self.kept_relaxed(it.d22) {
                     it.optional = true;
                     if self.bottom_ever {
                         // D22 keeps the TOP rows of the padded region: padding + leading rows of the bar
@@ -1357,7 +1454,15 @@ impl Oracle {
                 }
             }
         }
-        match match_region(&region, &items, 0, 0, self.bottom_ever) {
+        let first_live = items.iter().position(|i| i.state != ItemState::Kept).unwrap_or(items.len());
+        let blank_at = if !self.bottom_ever {
+            None
+        } else if relaxed_any_region || self.gap_pending {
+            Some(usize::MAX) // anywhere: the padding rows may have been kept instead of a bar's rows
+        } else {
+            Some(first_live) // the padding sits directly above the first live bar line
+        };
+        match match_region(&region, &items, 0, 0, blank_at) {
             Some(choice) => {
                 if !after_clear {
                     let rows: usize = choice
@@ -1489,7 +1594,7 @@ impl Oracle {
 
 /// backtracking match of the region rows against the items; returns, per item, the index of the
 /// candidate that was shown (None = optional item absent)
-fn match_region(rows: &[String], items: &[Item], k: usize, p: usize, allow_blank: bool) -> Option<Vec<Option<usize>>> {
+fn match_region(rows: &[String], items: &[Item], k: usize, p: usize, blank_at: Option<usize>) -> Option<Vec<Option<usize>>> {
     if k == items.len() {
         // the rest must be blank
         return if rows[p.min(rows.len())..].iter().all(|r| r.is_empty()) {
@@ -1506,21 +1611,25 @@ fn match_region(rows: &[String], items: &[Item], k: usize, p: usize, allow_blank
             row_eq(got, &c[j])
         });
         if fits {
-            if let Some(mut rest) = match_region(rows, items, k + 1, p + c.len(), allow_blank) {
+            if let Some(mut rest) = match_region(rows, items, k + 1, p + c.len(), blank_at) {
                 rest.insert(0, Some(ci));
                 return Some(rest);
             }
         }
     }
     if it.optional {
-        if let Some(mut rest) = match_region(rows, items, k + 1, p, allow_blank) {
+        if let Some(mut rest) = match_region(rows, items, k + 1, p, blank_at) {
             rest.insert(0, None);
             return Some(rest);
         }
     }
-    // bottom alignment: blank padding rows above the frame
-    if allow_blank && p < rows.len() && rows[p].is_empty() {
-        return match_region(rows, items, k, p + 1, allow_blank);
+    // bottom alignment: blank padding rows directly above the first live bar line
+    let blank_ok = match blank_at {
+        None => false,
+        Some(b) => b == usize::MAX || b == k,
+    };
+    if blank_ok && p < rows.len() && rows[p].is_empty() {
+        return match_region(rows, items, k, p + 1, blank_at);
     }
     None
 }
@@ -1579,8 +1688,14 @@ pub fn run_sys_cases_mode(
         if or.unfit {
             s.count("cases_with_frames_taller_than_terminal");
         }
+        // NOT a failure of the properties checked here: at the END of such a history a finished, dropped
+        // bar still waits in the list behind the height cut; C19 only promises that omitted bars appear
+        // "as soon as there is room" (there is none yet, and a later draw with room paints it - otherwise
+        // D17 fires); that its final state has not been painted so far concerns C04's "dropping always
+        // paints the final state" in the regime frame > terminal (audit X1.7, bin c04). Counted as
+        // information about the generator only.
         if bad_is_none && !or.dropped_never_painted().is_empty() {
-            s.count("passing_cases_ending_with_dropped_bars_behind_the_cut_never_painted");
+            s.count("info:histories_ending_with_a_dropped_bar_still_behind_the_cut(no_room_yet)");
             if std::env::var("VERIF_SHOW_PENDING").is_ok() {
                 println!("PENDING {:?} {}", or.dropped_never_painted(), desc);
             }
